@@ -842,6 +842,31 @@ def raise_after_effect(chk, pid):
     # a degenerate result of an in-place step must be refused before the stores (the copying form is refused by the constructor)
     for q in ("region.Region.scale", "region.Region.translate", "region.Region.rotate90"):
         inplace_degenerate_refused(chk, pid, q)
+    inplace_operand_domain(chk, pid)
+
+
+def inplace_operand_domain(chk, pid):
+    """The copying forms hand the new corners to the constructor, which refuses anything but real numbers; the in-place forms
+    store them directly.  The numeric type tests on the arguments of the in-place transformations must therefore be at least
+    as strict as the constructor's: a test that lets a complex number through makes the in-place form accept (and store
+    complex corners) what the copying form rejects."""
+    repo = chk.repo
+    ctor = FV(repo, "region.Region.__init__")
+    ctor_real = [n for n in ast.walk(ctor.f.node) if isinstance(n, ast.Call) and isinstance(n.func, ast.Name)
+                 and n.func.id == "isinstance" and len(n.args) == 2 and ast.unparse(n.args[1]) == "numbers.Real"]
+    chk.require(len(ctor_real) >= 2, "Region.__init__: the corner points are no longer tested to be real numbers")
+    n_tests = 0
+    for q in ("region.Region.scale", "region.Region.translate"):
+        v = FV(repo, q)
+        tests = [n for n in ast.walk(v.f.node) if isinstance(n, ast.Call) and isinstance(n.func, ast.Name)
+                 and n.func.id == "isinstance" and len(n.args) == 2 and "numbers." in ast.unparse(n.args[1])]
+        chk.require(tests, f"{q}: no numeric type test on the arguments left")
+        n_tests += len(tests)
+        wide = [n for n in tests if any(t_ in ast.unparse(n.args[1]) for t_ in ("numbers.Number", "numbers.Complex"))]
+        chk.ob(f"{q}::inplace::operand-domain", not wide, f"{pid}.atomic",
+               "the arguments are tested to be real numbers, as the constructor tests the corners" if not wide else
+               f"`{v.src(wide[0])}` lets complex numbers through: the copying form is refused by the constructor (corners must be "
+               "numbers.Real), the in-place form stores complex corners", v.f, wide[0] if wide else None)
 
 
 def inplace_degenerate_refused(chk, pid, q):
@@ -995,7 +1020,7 @@ REFUSALS = {
     "region.Region.translate": [
         ("vector-type", TE, f"not isinstance(vector, {SEQ})"),
         ("vector-length", VE, f"isinstance(vector, {SEQ}) and len(vector) != self.ndim"),
-        ("vector-elements", TE, "any(not isinstance(e, numbers.Number) for e in vector)"),
+        ("vector-elements", TE, "any(not isinstance(e, numbers.Real) for e in vector)"),
     ],
     "region.Region.rotate90": [
         ("distinct-axes", VE, "ax1 == ax2"),
